@@ -69,6 +69,20 @@ pub mod mm {
     }
     #[inline]
     pub fn powf(x: f32, y: f32) -> f32 {
+        if x == 0.0 {
+            // Micromath computes exp(y * ln(x)), which for a zero base is
+            // far off (0^0.01 = 0.41) and for -0.0 overflows an integer
+            // subtraction (a panic with overflow checks on)
+            return if y == 0.0 {
+                1.0
+            } else if y > 0.0 {
+                0.0
+            } else if y < 0.0 {
+                f32::INFINITY
+            } else {
+                y // NaN
+            };
+        }
         mm::powf(x, y)
     }
     #[inline]
